@@ -20,11 +20,52 @@ var strPool = []string{"a", "b", "abc", "", "k1", "x y", "a\"b", "\\", "Ã©", "æ—
 var intPool = []int{0, 1, 2, 3, 5, 7, 10, 63, 64, 100}
 var bigInts = []int{2147483647, 2147483648, 4294967296, 9223372036854775807}
 
+// someInt: a list index / integer map key.  Mostly small; sometimes a numeric boundary: 2^31-1, 2^31, 2^32-1,
+// 2^32, 2^63-1, or a small value shifted by a multiple of 2^32 (k + 2^32*j, j = 1, 2, 256), which a 32-bit
+// truncation would confuse with k.
 func (g *pathGen) someInt() int {
-	if g.r.Chance(4) {
+	switch c := g.r.Intn(100); {
+	case c < 4:
 		return bigInts[g.r.Intn(len(bigInts))]
+	case c < 10:
+		j := []int{1, 2, 256}[g.r.Intn(3)]
+		return intPool[g.r.Intn(len(intPool))] + j<<32
+	case c < 12:
+		return []int{4294967295, 65536, 65537, 32768}[g.r.Intn(4)]
 	}
 	return intPool[g.r.Intn(len(intPool))]
+}
+
+// idSpelling: ways to write something in the place of the field id `id` after a '.'; accept says whether it still
+// denotes exactly that field (only leading zeros do: the number is parsed as an exact integer, never wrapped).
+type idSpelling struct {
+	text   string
+	accept bool
+}
+
+func idSpellings(id int, isField func(int64) bool) []idSpelling {
+	n := strconv.Itoa(id)
+	out := []idSpelling{
+		{"00" + n, true}, {"0" + n, true}, {"+" + n, false}, {"-0", false},
+		{"2147483647", false}, {"2147483648", false}, {"4294967295", false},
+		{"9223372036854775807", false}, {"9223372036854775808", false}, {"18446744073709551616", false},
+		{"99999999999999999999", false}, {"1234567890123456789012345678901234567890", false},
+	}
+	for _, j := range []int{1, 2, 256} {
+		out = append(out, idSpelling{strconv.Itoa(id + j<<32), false})
+		out = append(out, idSpelling{strconv.Itoa(id + j<<16), false}) // the field exists only modulo 2^16
+	}
+	// a spelling that happens to be a real field id of the struct is not a test of rejection
+	var keep []idSpelling
+	for _, sp := range out {
+		if !sp.accept {
+			if v, err := strconv.ParseInt(sp.text, 10, 64); err == nil && isField(v) {
+				continue
+			}
+		}
+		keep = append(keep, sp)
+	}
+	return keep
 }
 
 func product(aps [][]string, alts []string) [][]string {
@@ -226,6 +267,14 @@ func (g *pathGen) query(aps [][]string) []string {
 			switch {
 			case isStar(st):
 				st = g.randStep()
+			case (st[0] == 'i' || st[0] == 'f') && len(st) > 10 && g.r.Chance(35):
+				// ask for the value modulo 2^32 / 2^16: must NOT be selected by the big key
+				n, _ := strconv.Atoi(st[1:])
+				if g.r.Bool() {
+					st = st[:1] + strconv.Itoa(n&0xffffffff)
+				} else {
+					st = st[:1] + strconv.Itoa(n&0xffff)
+				}
 			case g.r.Chance(15):
 				switch st[0] {
 				case 'f', 'i':
